@@ -28,10 +28,14 @@ type fault struct {
 	retry  bool   // the code declares this condition retryable: no visible effect at all
 	fresh  bool   // the fault can only hit a connection that is being registered: dial one
 	second *fault // optional second fault (pairs)
+	site   string // restrict the fault to calls made from this framework function ("" = any)
 }
 
 func (f fault) String() string {
 	s := fmt.Sprintf("%s:%s@%d", vsys.CallName(f.call), errnoName(f.errno), f.k)
+	if f.site != "" {
+		s += "[" + f.site + "]"
+	}
 	if f.second != nil {
 		s += "+" + f.second.String()
 	}
@@ -90,6 +94,23 @@ func faultList(c cfg, K int64) []fault {
 	}
 	add(vsys.CEpollWait, "", true, false, unix.EINTR)
 	add(vsys.CAccept, "", true, true, unix.EINTR, unix.ECONNABORTED, unix.ECONNRESET)
+	// the same calls at specific framework call sites that the plain call index reaches rarely:
+	// the flush path on a writable event, the residual flush in close, the re-arming after a partial write
+	for _, sf := range []fault{
+		{call: vsys.CWrite, errno: unix.EPIPE, site: "(*eventloop).write"},
+		{call: vsys.CWritev, errno: unix.ECONNRESET, site: "(*eventloop).write"},
+		{call: vsys.CEpollMod, errno: unix.ENOMEM, site: "(*eventloop).write"},
+		{call: vsys.CEpollMod, errno: unix.ENOMEM, site: "(*conn).write"},
+		{call: vsys.CEpollMod, errno: unix.ENOENT, site: "(*conn).writev"},
+		{call: vsys.CWrite, errno: unix.ECONNRESET, site: "(*conn).write"},
+		{call: vsys.CWritev, errno: unix.EPIPE, site: "(*conn).writev"},
+	} {
+		for k := int64(1); k <= K && k <= 3; k++ {
+			f := sf
+			f.k, f.class = k, "accepted"
+			out = append(out, f)
+		}
+	}
 	// registration of a new connection fails
 	for k := int64(1); k <= 2; k++ {
 		out = append(out, fault{call: vsys.CEpollAdd, errno: unix.ENOMEM, k: k, class: "accepted", fresh: true})
@@ -264,7 +285,7 @@ func runC18Case(c cfg, seed uint64, f fault, keys map[string]struct{}) (reached 
 	}
 	opened0, closed0 := mon.opened.Load(), mon.closed.Load()
 	// install the fault(s)
-	id := vsys.PlanAdd(&vsys.Rule{Call: f.call, FD: -1, Class: f.class, Index: f.k, Action: vsys.AErrno, Errno: f.errno, Once: true})
+	id := vsys.PlanAdd(&vsys.Rule{Call: f.call, FD: -1, Class: f.class, Index: f.k, Action: vsys.AErrno, Errno: f.errno, Once: true, Site: f.site})
 	var freshConn net.Conn
 	if f.fresh {
 		// the fault can only hit connections that are being accepted / registered: let k of them arrive
@@ -292,7 +313,7 @@ func runC18Case(c cfg, seed uint64, f fault, keys map[string]struct{}) (reached 
 			}
 		}
 	}
-	fired, _ := waitCondQuick(3*time.Second, func() bool { return vsys.NFired() >= 1 })
+	fired, _ := waitCondQuick(1200*time.Millisecond, func() bool { return vsys.NFired() >= 1 })
 	if !fired {
 		return false // site not reached in this configuration: reported as not reached, not as held
 	}
